@@ -18,10 +18,16 @@ _scratch = None
 
 def scratch():
     global _scratch
+    if _scratch is None and os.environ.get('VERIF_SCRATCH_DIR') and os.path.isdir(os.environ['VERIF_SCRATCH_DIR']):
+        # child process of a running check: share (and never delete) the parent's scratch directory
+        _scratch = os.environ['VERIF_SCRATCH_DIR']
+        os.environ['VERIF_SCRATCH_CHILD'] = '1'
+        return _scratch
     if _scratch is None:
         base = os.environ.get('VERIF_SCRATCH_BASE') or tempfile.gettempdir()
         _scratch = tempfile.mkdtemp(prefix='gm2verif_', dir=base)
         atexit.register(lambda: shutil.rmtree(_scratch, ignore_errors=True))
+        os.environ['VERIF_SCRATCH_DIR'] = _scratch
     return _scratch
 
 
@@ -64,6 +70,8 @@ def include_flags():
 def compile_ir(src, out_name=None, extra=()):
     """compile a harness or repo TU to textual IR; returns path"""
     out = os.path.join(scratch(), (out_name or os.path.basename(src)) + '.ll')
+    if os.environ.get('VERIF_SCRATCH_CHILD') and os.path.exists(out):
+        return out
     cmd = ['clang++-14'] + IR_FLAGS + include_flags() + list(extra) + [src, '-o', out]
     r = subprocess.run(cmd, capture_output=True, text=True)
     if r.returncode != 0:
@@ -73,6 +81,8 @@ def compile_ir(src, out_name=None, extra=()):
 
 def compile_native(src, out_name, extra=(), libs=(), opt='-O2', cxx='g++'):
     out = os.path.join(scratch(), out_name)
+    if os.environ.get('VERIF_SCRATCH_CHILD') and os.path.exists(out):
+        return out
     cmd = [cxx, '-std=c++14', opt, '-DNDEBUG', '-DGM2CALC_VERIF', '-fno-access-control', '-w',
            '-ffp-contract=off'] + include_flags() + list(extra) + [src, '-o', out] + list(libs)
     r = subprocess.run(cmd, capture_output=True, text=True)
